@@ -514,6 +514,10 @@ func (w *c15World) run(h *gorm.DB, st c15Step, base *gorm.DB, baseCh c15Chain) *
 		out.RA = int64(len(out.IDs))
 	case "count":
 		tx = h.Count(&out.Count)
+	case "countsel": // COUNT(`col`) on a NOT NULL column
+		tx = h.Select(col).Count(&out.Count)
+	case "countdist": // COUNT(DISTINCT(`col`)) on a unique column
+		tx = h.Distinct(col).Count(&out.Count)
 	case "first", "last", "take":
 		var x C15Rec
 		switch fin {
@@ -784,8 +788,10 @@ func c15Judge(rows []c15Row, ch c15Chain, st c15Step, out *c15Out) string {
 		wantKeys[i] = key(r)
 	}
 	switch fin {
-	case "count":
-		if lim < 0 && off == 0 && out.Count != int64(len(match)) {
+	case "count", "countsel", "countdist":
+		// latitude: a handle returned by First/Take/Last keeps RaiseErrorOnNotFound; with an OFFSET the count query
+		// returns no row and that flag fires — Count is only judged "without limit, offset"
+		if out.Err == "" && lim < 0 && off == 0 && out.Count != int64(len(match)) {
 			return fmt.Sprintf("Count = %d, Find returns %d rows", out.Count, len(match))
 		}
 		return ""
@@ -961,7 +967,7 @@ func c15GenLims(rng *rand.Rand, maxLen, maxV int) []limCall {
 }
 
 var c15Fins = []string{"find", "findptr", "findsmall", "findmap", "scan", "scanmaps", "scan1", "scanprim", "pluck:id", "pluck:n",
-	"pluck:m", "pluck:s", "pluck:u", "rows", "count", "first", "last", "take", "firstmap", "lastmap", "batches"}
+	"pluck:m", "pluck:s", "pluck:u", "rows", "count", "countsel:n", "countdist:u", "first", "last", "take", "firstmap", "lastmap", "batches"}
 var c15ReuseFrom = []string{"count", "count", "count", "find", "findmap", "findptr", "first", "last", "take", "batches"}
 var c15ReuseTo = []string{"find", "find", "findmap", "pluck:id", "pluck:u", "rows", "scan", "first", "last", "take", "count", "batches", "scan1"}
 
@@ -991,7 +997,7 @@ func c15GenStep(rng *rand.Rand, scn *c15Scn, ch c15Chain, depth int, n int) c15S
 	if rng.Intn(3) == 0 {
 		st.Extra.Lims = c15GenLims(rng, 2, n/2+2)
 	}
-	if rng.Intn(5) == 0 {
+	if rng.Intn(3) == 0 {
 		st.Extra.Atoms = []c15Atom{c15GenAtom(rng, scn.Rows, false)}
 	}
 	full := ch.plus(st.Extra)
@@ -1063,7 +1069,7 @@ func c15GenScn(rng *rand.Rand, maxN int) *c15Scn {
 	n := rng.Intn(maxN + 1)
 	scn := &c15Scn{Rows: c15GenRows(rng, n)}
 	scn.Handle = []string{"session", "session", "ctx", "fresh"}[rng.Intn(4)]
-	na := rng.Intn(4)
+	na := rng.Intn(5) // 0..4 prior Where merges
 	for i := 0; i < na; i++ {
 		scn.Base.Atoms = append(scn.Base.Atoms, c15GenAtom(rng, scn.Rows, i > 0 && rng.Intn(3) == 0))
 	}
@@ -1147,6 +1153,9 @@ func c15Compare(p *c15Pending, ans json.RawMessage) string {
 	}
 	fin := strings.SplitN(p.st.Fin, ":", 2)[0]
 	total := c15Total(p.ch.Ords)
+	if fin == "countsel" || fin == "countdist" {
+		fin = "count" // same query shape and value as Count: the selected column is NOT NULL / unique
+	}
 	if fin == "batches" {
 		mb := [][]int{}
 		for _, b := range m["batches"].([]interface{}) {
